@@ -178,6 +178,8 @@ def _sigma_matrix(d, kind):
         C = np.full((d, d), 0.8)
         np.fill_diagonal(C, 1.0)
         return C * 0.03
+    if kind == "tiny":  # a posterior 1e-6 of the prior range wide: variances below 1e-10 in unit-cube units (exactly representable)
+        return np.diag([2.0 ** -40 * (1 + i) for i in range(d)]) + (2.0 ** -42 if d > 1 else 0.0) * (np.ones((d, d)) - np.eye(d))
     if kind == "scales":
         return np.diag(np.logspace(-3, 0, d) if d > 1 else [1e-3]) * 0.05
     raise ValueError(kind)
@@ -527,7 +529,62 @@ def run_fold(case):
     return res
 
 
-KINDS = {"lattice": run_lattice, "tpcn": run_tpcn, "accept": run_accept, "hardwall": run_hardwall, "fold": run_fold}
+def run_ensemble(case):
+    """Scale: the acceptance factor of a LARGE ensemble (thousands of walkers, dimension up to 32, several modes, unsorted assignments) must be,
+    walker by walker, the factor the same kernel computes for that walker alone (the small scopes of part B decide the latter against the
+    proposal law).  Also the step is per-walker: proposals for walker k do not depend on the other walkers."""
+    from tempest.mcmc import TPCNRunner
+    from tempest.modes import ModeStatistics
+
+    res = Res()
+    n, d, K = case["n"], case["d"], case["K"]
+
+    def vdc(i, b):
+        x, f = 0.0, 1.0 / b
+        while i:
+            x += f * (i % b)
+            i //= b
+            f /= b
+        return x
+
+    pr = [2, 3, 5, 7, 11, 13, 17, 19, 23, 29, 31, 37, 41, 43, 47, 53, 59, 61, 67, 71, 73, 79, 83, 89, 97, 101, 103, 107, 109, 113, 127, 131]
+    U = np.array([[vdc(i + 1, pr[j % len(pr)] + 2 * (j // len(pr))) for j in range(d)] for i in range(n)]) * 0.9 + 0.05
+    V = np.roll(U, 7, axis=0)[:, ::-1].copy()
+    assign = (np.arange(n) * 7 + (np.arange(n) // 5)) % K  # unsorted, every mode occupied
+    means = np.array([np.full(d, 0.3 + 0.2 * k) for k in range(K)])
+    covs = []
+    for k in range(K):
+        a = np.cos(np.arange(d) * (k + 1.3))
+        covs.append(np.diag(0.02 + 0.01 * np.arange(d) / d) * (1 + k) + 0.004 * np.outer(a, a))
+    ms = ModeStatistics(means, np.array(covs), np.array([2.0, 5.0, 1e6, 1.0][:K]))
+
+    def runner(Us, As):
+        m = len(Us)
+        return TPCNRunner(Us.copy(), Us.copy(), np.zeros(m), None, As.copy(), 0.7, ms, lambda x: (np.zeros(len(x)), None), lambda u: u, None, 1, 0, None, None, False)
+
+    big = runner(U, assign)
+    with np.errstate(all="ignore"):
+        fb = np.asarray(big._compute_acceptance_factor(V.copy(), np.zeros(n)), dtype=float)
+    res.evals += 1
+    worst = (0.0, None)
+    for i in range(n):
+        one = runner(U[i:i + 1], assign[i:i + 1])
+        with np.errstate(all="ignore"):
+            f1 = float(np.asarray(one._compute_acceptance_factor(V[i:i + 1].copy(), np.zeros(1)))[0])
+        res.evals += 1
+        err = abs(fb[i] - f1)
+        if err > 1e-9 * (1 + abs(f1)) and err > worst[0]:
+            worst = (err, (i, float(fb[i]), f1))
+    res.states += n
+    res.outcome(("ensemble", n, d, K), nontrivial=True)
+    if worst[1] is not None:
+        i, got, want = worst[1]
+        res.violate("tpcn:ensemble-factor", f"ensemble of {n} walkers in {d} dimensions, {K} modes: acceptance factor of walker {i} (mode {int(assign[i])}) is {got!r} inside the ensemble "
+                    f"but {want!r} when the same kernel is asked about that walker alone", dict(case))
+    return res
+
+
+KINDS = {"ensemble": run_ensemble, "lattice": run_lattice, "tpcn": run_tpcn, "accept": run_accept, "hardwall": run_hardwall, "fold": run_fold}
 
 
 def plan(ctx):
@@ -572,12 +629,17 @@ def plan(ctx):
             for nu in (1.0, 2.0, 5.0):
                 for kind in ("array", "list"):
                     B.append({"kind": "tpcn", "d": d, "K": K, "nu": nu, "S": "iso", "mu": "centre", "sigma": 0.5, "int_dof": kind})
+    for d in (1, 2, 3):
+        for K in (1, 2):
+            for nu in (1.0, 5.0):
+                B.append({"kind": "tpcn", "d": d, "K": K, "nu": nu, "S": "tiny", "mu": "centre", "sigma": 0.5})
     for via in ("pickle", "deepcopy", "copy"):
         for d in (2, 3):
             for K in (1, 2):
                 for S in ("corr", "scales"):
                     B.append({"kind": "tpcn", "d": d, "K": K, "nu": 2.0 if d == 2 else 5.0, "S": S, "mu": "offset", "sigma": 0.5, "via": via})
     ctx.explore("B-tpcn-law-vs-ratio", B, chunksize=2)
+    ctx.explore("large-ensembles", [{"kind": "ensemble", "n": n_, "d": d_, "K": K_} for n_, d_, K_ in ((300, 4, 3), (1500, 32, 3), (4200, 16, 4)) + (((4096, 20, 3),) if th else ())])
     # ---- C, D
     CD = [{"kind": "accept", "kernel": k} for k in ("tpcn", "rwm")]
     CD += [{"kind": "hardwall", "kernel": k, "d": d} for k in ("tpcn", "rwm") for d in (1, 2)]
